@@ -54,12 +54,6 @@ pub fn vx_unwrap_or_else<T, F: FnOnce() -> T>(o: Option<T>, f: F) -> (r: T)
     requires o is None ==> f.requires(()),
     ensures o is Some ==> r == o.unwrap(), o is None ==> f.ensures((), r),
 { o.unwrap_or_else(f) }
-/// `OPT.map(f)` (R7 wrapper)
-#[verifier::external_body]
-pub fn vx_opt_map<T, U, F: FnOnce(T) -> U>(o: Option<T>, f: F) -> (r: Option<U>)
-    requires o is Some ==> f.requires((o.unwrap(),)),
-    ensures o is None ==> r is None, o is Some ==> r is Some && f.ensures((o.unwrap(),), r.unwrap()),
-{ o.map(f) }
 /// `RESULT.map(f)` (R7 wrapper)
 #[verifier::external_body]
 pub fn vx_res_map<T, E, U, F: FnOnce(T) -> U>(o: Result<T, E>, f: F) -> (r: Result<U, E>)
